@@ -7,20 +7,20 @@
 #include "vp.h"
 typedef struct S_class_rml__internal__MemoryPool pool_t;
 typedef struct S_class_rml__internal__TLSData tls_t;
-u64 inner_p, inner_usable; int inner_calls, inner_null;
+u64 inner_p, inner_usable; int inner_calls, inner_null, inner_large; unsigned inner_os;
 u8* _ZN3rml8internalL18internalPoolMallocEPNS0_10MemoryPoolEm(pool_t* mp, u64 size) {
   inner_calls++;
   if (vp_nd_bool()) { inner_null = 1; return 0; }
   if (size == 0) size = 8;
   if (size >= vp_min_large()) {            /* large object path of internalPoolMalloc: 64-byte aligned */
     u64 p = vp_nd(); __CPROVER_assume(p % 64 == 0 && p != 0 && p < (1ull << 47));
-    inner_p = p; inner_usable = size; return (u8*)p;
+    inner_p = p; inner_usable = size; inner_large = 1; return (u8*)p;
   }
   unsigned os = vp_objsize((unsigned)size);
   unsigned cap = (16384 - 128) / os;
   u64 b = vp_nd(); __CPROVER_assume(b >= 1 && b < (1ull << 33));
   u64 k = vp_nd(); __CPROVER_assume(k >= 1 && k <= cap);
-  inner_p = b * 16384 + 16384 - k * os; inner_usable = os;
+  inner_p = b * 16384 + 16384 - k * os; inner_usable = os; inner_os = os;
   return (u8*)inner_p;
 }
 u8* _ZN3rml8internal10MemoryPool15getFromLLOCacheEPNS0_7TLSDataEmm(pool_t* mp, tls_t* tls, u64 size, u64 alignment) {
@@ -28,7 +28,7 @@ u8* _ZN3rml8internal10MemoryPool15getFromLLOCacheEPNS0_7TLSDataEmm(pool_t* mp, t
   VP_ASSERT(alignment >= 64 && (alignment & (alignment - 1)) == 0, "getFromLLOCache called with a bad alignment");
   if (vp_nd_bool()) { inner_null = 1; return 0; }
   u64 q = vp_nd(); __CPROVER_assume(q != 0 && q < (1ull << 47) / alignment);
-  inner_p = q * alignment; inner_usable = size; return (u8*)inner_p;
+  inner_p = q * alignment; inner_usable = size; inner_large = 1; return (u8*)inner_p;
 }
 tls_t* _ZN3rml8internal10MemoryPool6getTLSEb(pool_t* mp, u8 create) { return (tls_t*)(vp_nd() & 0xfff0); }
 u8 _ZN3rml8internalL16doInitializationEv(void) { VP_ASSERT(0, "doInitialization reached although initialised"); return 1; }
@@ -50,6 +50,11 @@ int main(void) {
     VP_ASSERT(r % alignment == 0, "aligned allocation is not aligned to the requested alignment");
     VP_ASSERT(r >= inner_p && r + size <= inner_p + inner_usable, "aligned block does not fit inside the object obtained from the inner allocator");
     VP_ASSERT(size <= 8 || alignment > 8 || r % 16 == 0 , "natural 16-byte alignment lost");
+    /* the block must stay recognisable by free/msize/realloc: a large object is identified by the LargeObjectHdr directly in
+       front of the user pointer, so it must be handed out unshifted; a pointer moved inside a slab object is only mapped back
+       by findObjectToFree for fitting-size objects (> 1024 bytes) at 128-byte aligned addresses (h_block STEP 2 proves that) */
+    if (inner_large) VP_ASSERT(r == inner_p, "pointer shifted inside a large object: its LargeObjectHdr is no longer in front of the user pointer (free/msize break)");
+    else if (r != inner_p) VP_ASSERT(inner_os > 1024 && r % 128 == 0, "pointer shifted inside a slab object that findObjectToFree cannot map back");
   }
   VP_REACHED();
 }
